@@ -3,7 +3,7 @@
 
 *)
 From Coq Require Import ZArith NArith List Bool Arith.
-From NSG Require Import Base.Prelude Model.Defender Model.Coord Proofs.CoordBase Proofs.CoordInv Proofs.CoordInvConn Proofs.CoordInvDispatch Proofs.CoordInvHandler Proofs.CoordProps Proofs.CoordDirect Proofs.CoordInv2 Proofs.CoordAgentStep.
+From NSG Require Import Base.Prelude Model.Defender Model.Coord Proofs.CoordBase Proofs.CoordInv Proofs.CoordInvConn Proofs.CoordInvDispatch Proofs.CoordInvHandler Proofs.CoordProps Proofs.CoordDirect Proofs.CoordInv2 Proofs.CoordAgentStep Proofs.CoordBarrier.
 Import ListNotations.
 
 (* the handlers waiting for the end of the episode are released only by the reward task, and it does nothing unless every agent in the game has finished *)
@@ -69,6 +69,40 @@ Theorem C06_nonfinal :
         else @game_finish V W G s2 id c act v').
 Proof. exact (@game_step_eq). Qed.
 
+(* no lost wake-up, for all three barriers: in every reachable idle state an unreleased wait is held by a barrier that is genuinely unmet (somebody has not finished / has not asked / the start event is clear) *)
+Theorem C06_unmet :
+  forall (V W G : Type) (wstep : W -> V -> G -> W * V) (wreset : W -> W) (winit : W -> role -> W * V)
+         (goal : role -> V -> bool) (detect : list G -> G -> bool) (cfg : config) 
+         (w : W) (ls : list (@label G)) (s : @state V W G) (h : @handler V G),
+       @execs V W G wstep wreset winit goal detect cfg (@init_state V W G w) ls = @Some (@state V W G) s ->
+       @quiescent V W G wstep winit goal detect cfg s = true ->
+       @In (@handler V G) h (@handlers V W G s) ->
+       match @h_pc V G h with
+       | PRewards false _ _ => @some_not_ended V W G s
+       | PResetDone false _ => @some_not_asked V W G s
+       | PJoinStart false _ | PResetStart false _ => @ev_start V W G s = false
+       | _ => True
+       end.
+Proof. exact (@idle_barriers_unmet). Qed.
+
+(* the invariant behind it, for every reachable state, idle or not: an unreleased end wait => somebody has not finished or the reward task is pending; an unreleased reset wait => somebody has not asked or the reset task is pending; an unreleased start wait => start event clear; start event set => at least the required number of players in the game *)
+Theorem C06_invariant :
+  forall (V W G : Type) (wstep : W -> V -> G -> W * V) (wreset : W -> W) (winit : W -> role -> W * V)
+         (goal : role -> V -> bool) (detect : list G -> G -> bool) (cfg : config) 
+         (w : W) (ls : list (@label G)) (s : @state V W G),
+       @execs V W G wstep wreset winit goal detect cfg (@init_state V W G w) ls = @Some (@state V W G) s ->
+       @Kst V W G cfg s.
+Proof. exact (@K_reachable). Qed.
+
+(* the start event is set only while at least the required number of players is in the game *)
+Theorem C06_start :
+  forall (V W G : Type) (wstep : W -> V -> G -> W * V) (wreset : W -> W) (winit : W -> role -> W * V)
+         (goal : role -> V -> bool) (detect : list G -> G -> bool) (cfg : config) 
+         (w : W) (ls : list (@label G)) (s : @state V W G),
+       @execs V W G wstep wreset winit goal detect cfg (@init_state V W G w) ls = @Some (@state V W G) s ->
+       @ev_start V W G s = true -> required cfg <= @length (addr * @agent V G) (@agents V W G s).
+Proof. exact (@started_enough_players). Qed.
+
 (* in every reachable state a handler held at the end-of-episode barrier belongs to an agent whose episode has ended, and the view it will report is exactly the stored one (final observations only are held back) *)
 Theorem C06_parked_final :
   forall (V W G : Type) (wstep : W -> V -> G -> W * V) (wreset : W -> W) (winit : W -> role -> W * V)
@@ -103,4 +137,7 @@ Print Assumptions C06_end.
 Print Assumptions C06_end_all.
 Print Assumptions C06_quiescent.
 Print Assumptions C06_nonfinal.
+Print Assumptions C06_unmet.
+Print Assumptions C06_invariant.
+Print Assumptions C06_start.
 Print Assumptions C06_parked_final.
